@@ -32,7 +32,7 @@ class C03(Check):
                 sc = rng.choice([1e9, 1e6, 1e3, 1e-9, 1e12])
                 rc.aff = [x * sc for x in rc.aff]
                 self.dist("extreme affinity scale")
-        io, mo = self.correspond("run", [rc.line(c) for c, rc in runs.items()])
+        io, mo = self.correspond("run", [rc.line(c) for c, rc in runs.items()], drift=True)
         for cid, rc in runs.items():
             o = io.get(cid)
             if not o:
@@ -105,10 +105,19 @@ class C04(Check):
             runs["nonfinite%d" % n] = random_run(rng, tr=2, variants=[(directed, assort, init)], r=len(sc), maxit=1, nconv=1,
                                                  ltwt=("u", "u"), script=sc)
         self.cov["exhaustive_orderings_up_to_r"] = maxr
+        # the report and the selection of a run made with a Solver object that has run before
+        solver_reuse_stage(self, "selection-with-reused-solver")
         # (b) real runs
         for k in range(60 if self.tier == "quick" else 600):
             runs["real%d" % k] = random_run(rng, tr=2, variants=ALL_VARIANTS, r=rng.randint(2, 5), maxit=rng.choice([1, 3, 11]))
-        io, mo = self.correspond("run", [rc.line(c) for c, rc in runs.items()])
+        # scripted runs: the whole selection logic is independent of the numbers -> compared strictly;
+        # real runs: the model's numbers are compared under the locality rule (drift), the monitor decides
+        scripted = {c: rc for c, rc in runs.items() if rc.script}
+        realr = {c: rc for c, rc in runs.items() if not rc.script}
+        io, mo = self.correspond("run@scripted", [rc.line(c) for c, rc in scripted.items()],
+                                 keys=["iters", "reasons", "L2s", "adopted", "maxL2", "nreal", "err", "labels"])
+        io_r, _ = self.correspond("run", [rc.line(c) for c, rc in realr.items()], drift=True)
+        io.update(io_r)
         for cid, rc in runs.items():
             o = io.get(cid)
             if not o or o.get("err") != ["0"]:
@@ -136,7 +145,7 @@ class C04(Check):
             d2["recs"] = [(s, d, [0] * len(ws)) for s, d, ws in rc.recs]
             zero["z%d" % n] = RunCase(**d2)
             lines.append(zero["z%d" % n].line("z%d" % n))
-        io2, _ = self.correspond("run", lines)
+        io2, _ = self.correspond("run", lines, drift=True)
         for cid, rc in zero.items():
             o = io2.get(cid)
             if not o:
@@ -274,7 +283,7 @@ class C05(Check):
         # unscripted real runs: pass/fail computed from the likelihoods the run itself evaluated
         real = {"rr%d" % k: random_run(rng, tr=2, variants=ALL_VARIANTS, r=1, maxit=rng.choice([5, 25, 60, 120]),
                                        nconv=rng.choice([1, 2, 3])) for k in range(30 if self.tier == "quick" else 300)}
-        io2, _ = self.correspond("run", [rc.line(c) for c, rc in real.items()])
+        io2, _ = self.correspond("run", [rc.line(c) for c, rc in real.items()], drift=True)
         for cid, rc in real.items():
             o = io2.get(cid)
             if not o or o.get("err") != ["0"]:
@@ -334,6 +343,46 @@ class C05(Check):
 
 # ------------------------------------------------------------------------------ C07
 
+def solver_reuse_stage(self, key):
+    """histories at the level of the public class `solver::Solver`: run on problem A, then on problem B"""
+    rng = self.rng
+    # one solver object, two runs: the public class `solver::Solver` run on problem A and then on problem B must
+    # give for B what a fresh solver gives (nothing of A may survive inside the object)
+    n2 = 30 if self.tier == "quick" else 250
+    two, lines2 = {}, []
+    for k in range(n2):
+        directed, assort, init = rng.choice(ALL_VARIANTS)
+        r, maxit, nconv = rng.randint(1, 4), rng.choice([1, 3, 11, 21]), rng.choice([1, 2, 10])
+        a = random_run(rng, variants=[(directed, assort, init)], ltwt=("u", "u"), r=r, maxit=maxit, nconv=nconv, heavy=False)
+        b = random_run(rng, variants=[(directed, assort, init)], ltwt=("u", "u"), r=r, maxit=maxit, nconv=nconv, heavy=False)
+        if rng.random() < 0.5:
+            # make the first problem the "easier" one (tiny network: higher likelihoods than the second)
+            a.recs, a.L = [(0, 1, [1] * a.L)], a.L
+        two["s%d" % k] = (a, b)
+        lines2.append(gen.case_run2("s%d.two" % k, directed, assort, init, r, maxit, nconv,
+                                    [(a.K, a.recs, a.L, a.seed, a.aff), (b.K, b.recs, b.L, b.seed, b.aff)]))
+        lines2.append(b.line("s%d.fresh" % k))
+    if self.bdir:
+        o2, cr2 = C.run_impl(self.bdir, lines2)
+        self.cov["evaluations"] += len(lines2)
+        for cid, line, err, code in cr2:
+            self.on_crash("run2", cid, line, err, code)
+        for k, (a, b) in two.items():
+            x, y = o2.get(k + ".two"), o2.get(k + ".fresh")
+            if not x or not y or y.get("err") != ["0"]:
+                continue
+            self.monitor("solver-object histories")
+            self.nontrivial(("solver-reuse", str(a.recs), str(b.recs), b.seed))
+            diff = [f for f in ("u", "aff", "iters", "reasons", "L2s", "maxL2", "nreal") + (("v",) if b.directed else ())
+                    if x.get(f) != y.get(f)]
+            if diff:
+                self.violate(key, "a Solver object that has already run another problem gives different %s than a fresh one"
+                             % ",".join(diff),
+                             {"variant": b.variant(), "first_problem": a.describe(), "second_problem": b.describe(),
+                              "reused": {f: x.get(f) for f in diff}, "fresh": {f: y.get(f) for f in diff},
+                              "case": [l for l in lines2 if l.startswith(k + ".two ")][0]})
+
+
 class C07(Check):
     pid = "C07"
     lean_modules = ["MTProps.C07", "MTProps.CodeRun"]
@@ -362,7 +411,7 @@ class C07(Check):
                 if rng.random() < 0.5:  # an unrelated call in between
                     lines.append(random_run(rng, variants=ALL_VARIANTS).line("h%d.x%d" % (k, pi)))
             lines.append(rc.line("h%d.again" % k))
-        io, mo = self.correspond("run-history", lines, keys=lambda a, b: [x for x in NUMERIC_KEYS + ["labels", "seed", "err", "udims", "vdims"] if x in a or x in b])
+        io, mo = self.correspond("run-history", lines, keys=lambda a, b: [x for x in NUMERIC_KEYS + ["labels", "seed", "err", "udims", "vdims"] if x in a or x in b], drift=True)
         # fresh process per call
         fresh = {}
         for k in list(targets)[: (8 if self.tier == "quick" else 40)]:
@@ -413,9 +462,10 @@ class C07(Check):
                                      dict(rc.describe(), prior=p, prior_v_shape=list(shape), returned_dims=o.get("vdims"),
                                           case=RunCase(**dict(rc.__dict__, prior=p, vshape=pi)).line("replay")))
                         break
+        solver_reuse_stage(self, "solver-object-state")
         self.sample({"history": [l.split(" ")[0] for l in lines[:12]], "priors": [str(p) for p in priors]})
         self.cov["rule"] = ("histories in one process: the same call under 5 different prior contents of the output containers (0, 5, -5, NaN, 1e300) and 5 prior shapes of the unvalidated in-membership container (N x K, K x N, NK x 1, empty, (N+1) x K), "
-                            "in shuffled order, interleaved with unrelated calls of other variants, then repeated, then in a fresh process; "
+                            "in shuffled order, interleaved with unrelated calls of other variants, then repeated, then in a fresh process; one Solver object run on two problems vs a fresh one; "
                             "implementation-vs-implementation bit identity; non-trivial = some vertex has no out-edge and r >= 2; "
                             "distinct by (variant, records, seed)")
 
@@ -535,7 +585,7 @@ class C08(Check):
             d2["recs"] = [(s, d, [0] * len(ws)) for s, d, ws in rc.recs]
             zero["z%d" % n] = RunCase(**d2)
             lines.append(zero["z%d" % n].line("z%d" % n))
-        io2, _ = self.correspond("run", lines)
+        io2, _ = self.correspond("run", lines, drift=True)
         for cid, rc in zero.items():
             o = io2.get(cid)
             if not o:
@@ -661,7 +711,7 @@ class C11(Check):
         for cid, (a, b) in pairs.items():
             netl += [gen.case_net(cid + "na", False, a.lt, a.recs, a.L, a.wt), gen.case_net(cid + "nb", False, b.lt, b.recs, b.L, b.wt)]
         ion, _ = self.correspond("net", netl)
-        io, mo = self.correspond("run", lines)
+        io, mo = self.correspond("run", lines, drift=True)
         for cid, (a, b) in pairs.items():
             oa, ob = io.get(cid + "a"), io.get(cid + "b")
             if not oa or not ob or oa.get("err") != ["0"]:
@@ -684,7 +734,7 @@ class C11(Check):
         # symmetric affinity from the random start (general model)
         runs = {"sy%d" % n: random_run(rng, variants=[(False, False, "r")], K=rng.choice([2, 3, 4]), maxit=rng.choice([1, 5, 20, 40]))
                 for n in range(60 if self.tier == "quick" else 600)}
-        io2, _ = self.correspond("run", [rc.line(c) for c, rc in runs.items()])
+        io2, _ = self.correspond("run", [rc.line(c) for c, rc in runs.items()], drift=True)
         for cid, rc in runs.items():
             o = io2.get(cid)
             if not o or o.get("err") != ["0"]:
@@ -740,7 +790,7 @@ class C12(Check):
                 d2["lt"] = lt
                 d2["recs"] = [(mp[s], mp[d], ws) for s, d, ws in rc.recs]
                 lines.append(RunCase(**d2).line("%s.%d" % (cid, mi + 1)))
-        io, mo = self.correspond("run", lines)
+        io, mo = self.correspond("run", lines, drift=True)
         for cid, (rc, maps) in trip.items():
             base = io.get(cid + ".0")
             if not base or base.get("err") != ["0"]:
@@ -1013,7 +1063,7 @@ class C17(Check):
                                        seed=rng.choice([rng.randint(0, 2 ** 32), 2 ** 32 + rng.randint(0, 1000)]))
                 for k in range(120 if self.tier == "quick" else 1500)}
         io2, mo2 = self.correspond("run", [rc.line(c) for c, rc in runs.items()],
-                                   keys=lambda a, b: [k for k in a if k[0] == "s" and k != "seed"])
+                                   keys=lambda a, b: [k for k in a if k[0] == "s" and k != "seed"], drift=True)
         for cid, rc in runs.items():
             o = io2.get(cid)
             if not o or o.get("err") != ["0"]:
@@ -1198,7 +1248,7 @@ class C18(Check):
                                        r=rng.choice([2, 3, 4]), maxit=rng.choice([2, 3, 5, 11]), K=rng.choice([2, 3, 3, 4]))
                 for k in range(nuse)}
         iou, mou = self.correspond("run@transposed-view", [rc.line(c) for c, rc in runs.items()],
-                                   keys=lambda a, b: [x for x in a if x.endswith(".v") or x == "v"])
+                                   keys=lambda a, b: [x for x in a if x.endswith(".v") or x == "v"], drift=True)
         for c, rc in runs.items():
             o = iou.get(c)
             if not o or o.get("err") != ["0"]:
